@@ -716,6 +716,31 @@ def apply_fn(fn, x):
         if not x.is_poly():
             # formal algebraic element: sqrt(n/d) := sqrt(n)/sqrt(d); consistent with sqrt(u)**2 -> u
             return apply_fn('sqrt', Rat(x.num)) / apply_fn('sqrt', Rat(x.den))
+        # square content: sqrt(s^2 * q) := s * sqrt(q) for the largest rational s with real coefficients (so that |c z| and |c| |z|
+        # share one normal form)
+        coeffs = list(x.num.t.values())
+        if len(coeffs) > 1 and all(c[1] == 0 for c in coeffs):
+            from math import gcd
+            num = 0
+            den = 1
+            for c in coeffs:
+                num = gcd(num, abs(c[0].numerator))
+                den = den * c[0].denominator // gcd(den, c[0].denominator)
+            content = Fr(num, den)          # positive rational gcd of the coefficients
+
+            def square_part(n):
+                s, k = 1, 2
+                while k * k <= n and k < 2000:
+                    while n % (k * k) == 0:
+                        s *= k
+                        n //= k * k
+                    k += 1
+                return s
+            # content = a/b; content*b^2 = a*b is an integer: sqrt(content) = sqrt(a*b)/b
+            ab = content.numerator * content.denominator
+            s = Fr(square_part(ab), content.denominator)
+            if s != 1:
+                return Rat.const(s) * Rat(Poly.atom(fn_atom('sqrt', x / Rat.const(s * s))))
         return Rat(Poly.atom(fn_atom('sqrt', x)))
     if fn in ('cos', 'sin', 'tan'):
         if x.is_zero():
